@@ -40,7 +40,8 @@ def rhs_matrix(ode, max_tries: int | None = None) -> sympy.Matrix:
     RuntimeError
         If the maximum number of tries is reached
     """
-    intermediates = {x.symbol: x.expr for x in ode.intermediates}
+    # A state derivative can be used in other expressions as well
+    intermediates = {x.symbol: x.expr for x in ode.intermediates + ode.state_derivatives}
     if max_tries is None:
         max_tries = len(intermediates) + 1
     rhs = sympy.Matrix([state.expr for state in ode.sorted_state_derivatives()])
